@@ -1278,6 +1278,77 @@ func returnsBeforeClose(fset *token.FileSet, lit *ast.FuncLit) []int {
 	return out
 }
 
+// ---- the callers: do they drain the channel the pool's closer closes? ---------------------------------
+//
+// Syntactic (go/parser only) look at cmd/comparetrees.go: for every variable that receives the channel
+// returned by tree.Compare / tree.CompareWeighted: (a) some `for … range <var>` loop consumes it, and
+// (b) every bare `for range <x> {}` (the "empty the channel" idiom used before an early return) inside
+// that loop names the SAME variable (F38: the weighted branch drained the other, nil, channel).
+type xCaller struct {
+	Fn, Var string
+	Line    int
+	Ranged  bool
+	Drains  []string // the channels named by the bare `for range` loops inside the consuming loop
+}
+
+var callers []xCaller
+
+func extractCallers(repo string) error {
+	callers = nil
+	fset := token.NewFileSet()
+	f, err := parser.ParseFile(fset, filepath.Join(repo, "cmd", "comparetrees.go"), nil, 0)
+	if err != nil {
+		return err
+	}
+	isPoolCall := func(e ast.Expr) (string, bool) {
+		call, ok := e.(*ast.CallExpr)
+		if !ok {
+			return "", false
+		}
+		sel, ok := call.Fun.(*ast.SelectorExpr)
+		if !ok {
+			return "", false
+		}
+		if x, ok := sel.X.(*ast.Ident); ok && x.Name == "tree" && (sel.Sel.Name == "Compare" || sel.Sel.Name == "CompareWeighted") {
+			return sel.Sel.Name, true
+		}
+		return "", false
+	}
+	var vars []xCaller
+	ast.Inspect(f, func(n ast.Node) bool {
+		if as, ok := n.(*ast.AssignStmt); ok && len(as.Rhs) == 1 && len(as.Lhs) >= 1 {
+			if fn, ok := isPoolCall(as.Rhs[0]); ok {
+				if id, ok := as.Lhs[0].(*ast.Ident); ok {
+					vars = append(vars, xCaller{Fn: fn, Var: id.Name, Line: fset.Position(as.Pos()).Line})
+				}
+			}
+		}
+		return true
+	})
+	for i := range vars {
+		v := &vars[i]
+		ast.Inspect(f, func(n ast.Node) bool {
+			rs, ok := n.(*ast.RangeStmt)
+			if !ok || rs.Key == nil {
+				return true
+			}
+			if id, ok := rs.X.(*ast.Ident); !ok || id.Name != v.Var {
+				return true
+			}
+			v.Ranged = true
+			ast.Inspect(rs.Body, func(m ast.Node) bool {
+				if in, ok := m.(*ast.RangeStmt); ok && in.Key == nil && in.Value == nil {
+					v.Drains = append(v.Drains, exprStr(in.X))
+				}
+				return true
+			})
+			return true
+		})
+	}
+	callers = vars
+	return nil
+}
+
 // ---- self-test: the extractor run on a source with seeded defects --------------------------------
 
 const selfTestSrc = `package selftest
@@ -1566,9 +1637,9 @@ func extractGoroutines(repo string) ([]*xGo, error) {
 	ctx.CgoEnabled = false
 	ctx.Dir = repo
 	imp := importer.ForCompiler(x.fset, "source", nil)
-	cwd, _ := os.Getwd()
-	os.Chdir(repo)
-	defer os.Chdir(cwd)
+	// the "source" importer resolves imports through go/build's default context: point it at the
+	// repository under test (module mode locates the main module from this directory)
+	build.Default.Dir = repo
 	var pkgs []*pkgData
 	for _, rel := range []string{"hashmap", "tree", "support", "io/utils"} {
 		p, err := x.load(repo, rel, imp, &ctx)
@@ -1618,6 +1689,9 @@ func extractGoroutines(repo string) ([]*xGo, error) {
 		return gos[i].Line < gos[j].Line
 	})
 	filterReads(gos)
+	if err := extractCallers(repo); err != nil {
+		return nil, err
+	}
 	// the hash map shared by the workers: for every exported method of *HashMap, the writes it makes
 	// through its receiver and the lock held (one pseudo entry per method, Fn = "HashMap.<method>")
 	for _, p := range pkgs {
@@ -1759,6 +1833,22 @@ func emitLean(gos []*xGo, out string) error {
 			first = false
 			fmt.Fprintf(&b, "(%s, ⟨%s, %s, %v, .%s, %d⟩)", leanStr(g.Fn), leanStr(a.Var), leanStr(a.Form), a.Write, a.Sync, a.Line)
 		}
+	}
+	b.WriteString("]\n\n")
+	b.WriteString("/-- the callers in cmd/comparetrees.go: (pool function, variable holding its channel, ranged over?, channels named by the bare `for range` loops inside that loop) -/\n")
+	b.WriteString("def compareCallers : List (String × String × Bool × List String) := [")
+	for i, cl := range callers {
+		if i > 0 {
+			b.WriteString(",\n  ")
+		}
+		fmt.Fprintf(&b, "(%s, %s, %v, [", leanStr(cl.Fn), leanStr(cl.Var), cl.Ranged)
+		for j, d := range cl.Drains {
+			if j > 0 {
+				b.WriteString(", ")
+			}
+			b.WriteString(leanStr(d))
+		}
+		b.WriteString("])")
 	}
 	b.WriteString("]\n\n")
 	b.WriteString("end Gotree.Gen.C11\n")
